@@ -4,6 +4,7 @@ import (
 	"math/rand"
 	"strings"
 
+	"github.com/emersion/go-webdav/verifharness/doubles"
 	"github.com/emersion/go-webdav/verifharness/fw"
 )
 
@@ -140,7 +141,12 @@ func (g *generator) emit(mk func() *Case) {
 	if !g.c.Mine(i) {
 		return
 	}
-	g.e.run(mk())
+	cs := mk()
+	if i%5 == 2 && cs.Shape == "" && cs.BodyPad == 0 && cs.fault() == "" && cs.Wire == "" && !cs.Cancelled && cs.Prev == nil {
+		cs.Shape = doubles.BodyShapes[(i/5)%len(doubles.BodyShapes)]
+		g.c.Observe("body_shape", cs.Shape, 1)
+	}
+	g.e.run(cs)
 }
 
 func runAll(c *fw.Ctx) {
@@ -296,6 +302,29 @@ func (g *generator) definite(xs []seedDoc) []Body {
 			r, k := r, k
 			g.emit(func() *Case { return r.mk("empty-body", Body{Mut: "empty"}, k) })
 			g.emit(func() *Case { cs := r.mk("empty-body", Body{Mut: "empty"}, k); cs.CT = HV{}; return cs })
+		}
+	}
+	// one or two bytes that are no document, under every presentation of the
+	// body, with and without a Content-Type: what tells them from "no body"
+	// is their presence alone
+	for _, fam := range []string{"propfind", "propertyupdate", "calendar-query", "addressbook-query", "mkcol-cal", "mkcol-card"} {
+		for k, r := range routesFor(fam) {
+			for ji, junk := range []string{"<", "x", "\x00", "<a", "]]"} {
+				for si, sh := range append([]string{""}, doubles.BodyShapes...) {
+					if !g.c.Thorough() && (k+ji+si)%3 != 0 {
+						continue
+					}
+					r, k, junk, sh, noCT := r, k, junk, sh, (ji+si)%2 == 0
+					g.emit(func() *Case {
+						cs := r.mk("tiny-junk", Body{Data: []byte(junk), Doc: fam, Mut: "tiny-junk", Syntax: "xml-syntax:no-root"}, k)
+						if noCT {
+							cs.CT = HV{}
+						}
+						cs.Shape = sh
+						return cs
+					})
+				}
+			}
 		}
 	}
 	return pool
